@@ -472,6 +472,11 @@ def c02_extra(backend):
         f"Select(EventDataset('ds'), lambda e: e.{P}('A').Select(lambda j: j.pt() % 2))",
         f"Select(EventDataset('ds'), lambda e: e.{P}('A').Select(lambda j: j.nTrk() % 2))",
         f"Select(EventDataset('ds'), lambda e: e.{P}('A').Select(lambda j: j.pt() ** 2))",
+        # a string constant as a value: whatever storage the translator declares for it must be a declared C++ type
+        f"Select(EventDataset('ds'), lambda e: e.{P}('A').Select(lambda j: 'hi'))",
+        "Select(EventDataset('ds'), lambda e: 'hi')",
+        f"Select(SelectMany(EventDataset('ds'), lambda e: e.{P}('A')), lambda j: ('hi', j.pt()))",
+        f"Select(Where(EventDataset('ds'), lambda e: e.{P}('A').Count() > 0), lambda e: e.{P}('A').Select(lambda j: 'hi').First())",
     ]
     return qs
 
@@ -541,7 +546,7 @@ def c03_programs(backend, tier):
             add(f"ResultTTree(Select(EventDataset('ds'), lambda e: {body}), {nm}, 'tt', 'f.root')",
                 tags=() if n == m else ("must_raise",))
     # declared tree types (shared with C10)
-    out += [p_ for p_ in c10_programs(backend) if "tree_type" in p_.tags]
+    out += [p_ for p_ in c10_programs(backend) if "tree_type" in p_.tags or "tree_type_arith" in p_.tags]
     return out
 
 
@@ -1001,9 +1006,16 @@ def c10_programs(backend):
             f"Select(Where(EventDataset('ds'), lambda e: e.PRIM('A').Count() > 0), lambda e: e.PRIM('A').First().{mname}())",
             f"Select(EventDataset('ds'), lambda e: e.PRIM('A').Where(lambda j: j.pt() > 1.5).Select(lambda j: j.{mname}()))",
         ]
-        # (what column type an arithmetic expression over such a value gets is not stated by the property: not asserted)
         for q in forms:
             prog(q, [(E, ms)], tags=("tree_type", mname))
+    # an EXPRESSION over a value with a declared tree type is an ordinary expression: its column has the kind (and the value) the
+    # expression has - the tree type belongs to the bare value as a leaf column, not to what is computed from it
+    for mname, rkind, tt in (("w", "double", "int"), ("nTrk", "int", "double"), ("ptf", "float", "int")):
+        ms = MethodSpec(mname, TNum(rkind), tree_type=tt)
+        for expr in (f"j.{mname}() * 2.5", f"j.{mname}() + j.pt()", f"j.pt() - j.{mname}()", f"-j.{mname}()", f"j.{mname}() / 2",
+                     f"(j.{mname}() if j.pt() > 1.5 else 0.5)", f"j.{mname}() + 1"):
+            prog(f"Select(EventDataset('ds'), lambda e: e.PRIM('A').Select(lambda j: {expr}))", [(E, ms)], tags=("tree_type_arith", mname))
+        prog(f"Select(EventDataset('ds'), lambda e: e.PRIM('A').Select(lambda j: j.{mname}() * 0.5).Sum())", [(E, ms)], tags=("tree_type_arith", mname))
     # enums: argument, comparison
     en = {"xAOD.Jet.Color": ("xAOD.Jet", ["Red", "Blue"])}
     prog("Select(EventDataset('ds'), lambda e: e.PRIM('A').Where(lambda j: j.color() == xAOD.Jet.Color.Red).Count())", [(E, MethodSpec("color", TNum("int")))], enums=en, tags=("enum", "compare"))
